@@ -3,6 +3,7 @@ package props
 import (
 	"fmt"
 	"go/ast"
+	"go/constant"
 	"regexp"
 	"strings"
 
@@ -99,6 +100,7 @@ func runC13(c *core.Ctx) {
 	c.Rule("COAL", "COALESCE yields its first non-NULL argument")
 	c.Rule("IN", "IN / NOT IN scan with Equal and are each other's negation")
 	c.Rule("IDX", "list indexing yields the element or NULL")
+	c.Rule("STR", "string() converts without loss: identity on strings, full precision on times")
 	checkPayloadAgreement(c, "UNI2")
 	checkOutputConstructors(c, "UNI3")
 	t := loadFunctions(c, "TAB3")
@@ -113,6 +115,7 @@ func runC13(c *core.Ctx) {
 	checkCoalesce(c, ids)
 	checkInNotIn(c, t, ids)
 	checkListIndex(c, t, ids)
+	checkStringConversion(c, t, ids)
 }
 
 type arith struct {
@@ -578,5 +581,79 @@ func checkListIndex(c *core.Ctx, t *fnTable, ids map[string]int64) {
 			}
 		}
 		c.Decide(bad == "" && len(res) > 0, "IDX", ckey, d.Function.Pos(), len(res), "", bad)
+	}
+}
+
+// checkStringConversion (STR): string(x) "converts the argument to a string". For a String argument that is the
+// identity (Value.String() is the quoted rendering for explain output: string('abc') would be 'abc' with the quotes,
+// five characters, unequal to itself); for a Time it keeps the fraction of a second (two different times must not
+// convert to the same text).
+func checkStringConversion(c *core.Ctx, t *fnTable, ids map[string]int64) {
+	var d *tables.Descriptor
+	for _, x := range t.descs {
+		if x.Name == "string" {
+			d = x
+		}
+	}
+	key := "functions.string"
+	if d == nil || d.Function == nil {
+		c.Unknown("STR", key, 0, "descriptor not found")
+		return
+	}
+	for _, kind := range []string{"TypeIDString", "TypeIDTime", "TypeIDInt"} {
+		kind := kind
+		in := &absint.Interp{Info: t.info, Prog: c.Prog}
+		in.Hooks.Field = func(st *absint.State, base absint.Val, sel string) (absint.Val, bool) {
+			if sel == "TypeID" && base.Canon() == "values[0]" {
+				return absint.Int(ids[kind]), true
+			}
+			return nil, false
+		}
+		layout := ""
+		in.Hooks.Call = chainCall(func(st *absint.State, call *ast.CallExpr, callee string, recv absint.Val, args []absint.Val) (absint.Val, bool) {
+			switch callee {
+			case "octosql.Value.String":
+				return absint.S("DEBUGSTRING(" + recv.Canon() + ")"), true
+			case "time.Time.Format":
+				if tv := t.info.Types[call.Args[0]]; tv.Value != nil && tv.Value.Kind() == constant.String {
+					layout = constant.StringVal(tv.Value)
+				}
+				return absint.S("FORMAT(" + recv.Canon() + ")"), true
+			}
+			return nil, false
+		}, ctorHook(ids), errorfHook)
+		outs, err := runLit(in, d.Function, nil, "")
+		ckey := key + "/" + strings.TrimPrefix(kind, "TypeID") + " argument"
+		if err != nil {
+			c.Unknown("STR", ckey, d.Function.Pos(), err.Error())
+			continue
+		}
+		bad := ""
+		for _, o := range outs {
+			if o.Kind != "return" || len(o.Values) != 2 || !absint.IsNilVal(o.Values[1]) {
+				continue
+			}
+			got := o.Values[0].Canon()
+			if s := o.Field(o.Values[0], "Str"); s != nil {
+				got = s.Canon()
+			}
+			switch kind {
+			case "TypeIDString":
+				if got != "values[0].Str" && got != "values[0]" {
+					bad = "string() of a String must be that string; it is " + got + " — Value.String() is the quoted explain rendering, so string('abc') has five characters and is not equal to 'abc'"
+				}
+			case "TypeIDTime":
+				if strings.HasPrefix(got, "DEBUGSTRING(") {
+					bad = "string() of a Time goes through Value.String(), the explain rendering, which drops the fraction of a second: different times convert to the same text"
+				} else if got == "FORMAT(values[0].Time)" && !strings.Contains(layout, "999999999") && !strings.Contains(layout, "000000000") {
+					bad = "string() of a Time is formatted with the layout " + layout + ", which drops the fraction of a second"
+				}
+			default:
+				if got == "" {
+					bad = "no text"
+				}
+			}
+		}
+		c.Decide(bad == "" && len(outs) > 0, "STR", ckey, d.Function.Pos(), len(outs), "converted without loss", bad)
 	}
 }
